@@ -193,6 +193,75 @@ def _form(spec, model):
     return {'confirmed': False, 'error': 'case not found'}
 
 
+def zero_point_cases():
+    """every model, real evaluation at exactly zero: loading(0) == 0 for a Python float, a Python int, a numpy 0-d and a 1-d array
+    holding a zero (with float and with whole-number parameters given as Python ints), and pressure(loading(0)) == 0 -- the zero
+    point is otherwise only decided as the limit p -> 0+ for the models handled by the CAS"""
+    from pgv.checks.models_common import DOMAIN
+    from pygaps.utilities.exceptions import CalculationError
+    import warnings
+    no_zero = {'Virial', 'FHVST', 'WVST'}  # pressure-explicit / VST models: loading is a numerical inverse, no claim at 0 here
+    for name in sorted(DOMAIN):
+        if name in no_zero:
+            continue
+        for ptag, conv in (('float_parameters', float), ('integer_parameters', lambda v: int(round(v)) if DOMAIN_INT_OK(name, v) else float(v))):
+            m = _model(name, None, {})
+            for k in list(m.params):
+                dom = DOMAIN[name][k]
+                m.params[k] = conv({'pos': 3.0, 'unit': 0.4, 'one_three': 2.0, 'real': 1.0}[dom]) if dom != 'unit' else 0.4
+            probs = []
+            with warnings.catch_warnings():
+                warnings.simplefilter('ignore')
+                for label, arg in (('0.0', 0.0), ('0', 0), ('numpy 0-d', numpy.asarray(0.0)), ('[0.0, 0.5]', numpy.array([0.0, 0.5])), ('[0, 1] ints', numpy.array([0, 1]))):
+                    try:
+                        z = numpy.asarray(m.loading(arg), dtype=float).ravel()[0]
+                        if not z == 0:
+                            probs.append(f"loading({label}) = {z}")
+                    except CalculationError:
+                        pass
+                    except Exception as exc:
+                        probs.append(f"loading({label}): {type(exc).__name__}: {exc}"[:120])
+                if name != 'TemkinApprox':
+                    try:
+                        zp = numpy.asarray(m.pressure(m.loading(0.0)), dtype=float).ravel()[0]
+                        if not zp == 0:
+                            probs.append(f"pressure(loading(0.0)) = {zp}")
+                    except CalculationError:
+                        pass
+                    except Exception as exc:
+                        probs.append(f"pressure(loading(0.0)): {type(exc).__name__}: {exc}"[:120])
+                # the Henry slope, evaluated (not as a limit): loading(p)/p at p = 1e-12 .. 1e-9, also for a large exponent
+                from pgv.checks.c10 import HENRY
+                if name in HENRY:
+                    for big in (False, True):
+                        if big and name != 'Toth':
+                            continue
+                        if big:
+                            m.params['t'] = conv(50.0)
+                        want = float(HENRY[name](m.params))
+                        for q in (1e-12, 1e-9):
+                            for arg in (q, numpy.array([q])):
+                                try:
+                                    got = float(numpy.asarray(m.loading(arg), dtype=float).ravel()[0]) / q
+                                    if not abs(got - want) <= 1e-3 * abs(want):
+                                        probs.append(f"loading({arg!r})/p = {got}, Henry slope {want}" + (' (t = 50)' if big else ''))
+                                except Exception as exc:
+                                    probs.append(f"loading({arg!r}): {type(exc).__name__}: {exc}"[:120])
+            yield {'name': f"zero_point|{name}|{ptag}", 'ok': not probs, 'detail': '; '.join(probs[:4])}
+
+
+def DOMAIN_INT_OK(name, v):
+    return float(v).is_integer()
+
+
+@replayer('c10.zero')
+def _zero(spec, model):
+    for r in zero_point_cases():
+        if r['name'] == spec['name']:
+            return {'confirmed': not r['ok'], 'observed': r['detail'], 'expected': 'loading(0) == 0 and pressure(loading(0)) == 0 for every argument form'}
+    return {'confirmed': False, 'error': 'case not found'}
+
+
 @replayer('c10.numinv_history')
 def _numinv_history(spec, model):
     bad = [r for r in order_cases() if not r['ok'] and r['name'].endswith('|' + spec['model'])]
